@@ -17,6 +17,52 @@ use crate::op::*;
 use crate::shadow::*;
 
 pub type TestArena = Arena<Rootable![Root<'_>]>;
+/// an arena whose root type has `NEEDS_TRACE = false` (protocol: `new 0` not followed by
+/// `enter rootless_mutate`)
+pub type PlainArena = Arena<Rootable![PlainRoot]>;
+
+/// Run `$body` with `$a` bound to whichever arena flavour slot `$ai` holds (taken out of the slot
+/// for the duration, so `$self` stays usable inside).
+macro_rules! with_arena {
+    ($self:ident, $ai:expr, $a:ident => $body:expr) => {
+        if $self.arenas[$ai].plain.is_some() {
+            #[allow(unused_mut)]
+            let mut $a = $self.arenas[$ai].plain.take().unwrap();
+            let r = $body;
+            $self.arenas[$ai].plain = Some($a);
+            r
+        } else {
+            #[allow(unused_mut)]
+            let mut $a = $self.arenas[$ai].arena.take().unwrap();
+            let r = $body;
+            $self.arenas[$ai].arena = Some($a);
+            r
+        }
+    };
+}
+
+/// How a callback sees the root of either flavour.
+trait RootView<'gc> {
+    fn shared<'a>(&'gc self) -> RootRef<'a, 'gc>;
+    fn exclusive<'a>(&'a mut self) -> RootRef<'a, 'gc>;
+}
+impl<'gc> RootView<'gc> for Root<'gc> {
+    fn shared<'a>(&'gc self) -> RootRef<'a, 'gc> {
+        RootRef::Shared(self)
+    }
+    fn exclusive<'a>(&'a mut self) -> RootRef<'a, 'gc> {
+        RootRef::Mut(self)
+    }
+}
+impl<'gc> RootView<'gc> for PlainRoot {
+    fn shared<'a>(&'gc self) -> RootRef<'a, 'gc> {
+        RootRef::Absent
+    }
+    fn exclusive<'a>(&'a mut self) -> RootRef<'a, 'gc> {
+        self.counter += 1;
+        RootRef::Absent
+    }
+}
 
 pub struct CallbackPanic;
 
@@ -32,7 +78,9 @@ pub trait Source {
     }
     /// `new 0` (= `rootless_mutate`) is about to run on arena index `ai`: the executor writes the
     /// `enter rootless_mutate` line by itself; a replay drops the copy it read from the trace.
-    fn begin_rootless(&mut self, _w: &World, _ai: usize) {}
+    fn begin_rootless(&mut self, _w: &World, _ai: usize) -> bool {
+        false
+    }
 }
 
 pub struct ArenaSlot {
@@ -40,6 +88,7 @@ pub struct ArenaSlot {
     pub colors: HashMap<u32, (u8, bool, bool)>,
     pub phase: u8,
     pub arena: Option<TestArena>,
+    pub plain: Option<PlainArena>,
     pub metrics: Option<Metrics>,
     pub addr2id: HashMap<usize, u32>,
     pub shadow: Shadow,
@@ -229,6 +278,7 @@ impl World {
         // Drop any arenas still alive, then release the quarantine.
         for s in self.arenas.iter_mut() {
             s.arena.take();
+            s.plain.take();
         }
         self.arenas.clear();
         alloc::reset();
@@ -239,10 +289,14 @@ impl World {
 
     fn pre(&self, ai: usize) -> Pre {
         let s = &self.arenas[ai];
-        match (&s.arena, &s.metrics) {
-            (Some(a), Some(m)) => Pre { phase: cphase(a.collection_phase()), debt: m.allocation_debt(), total: m.total_gc_count(), traced: m.verif_counters().traced_gcs },
-            (None, Some(m)) => Pre { phase: CPhase::Sleeping, debt: m.allocation_debt(), total: m.total_gc_count(), traced: m.verif_counters().traced_gcs },
-            _ => Pre { phase: CPhase::Sleeping, debt: 0.0, total: 0, traced: 0 },
+        let phase = match (&s.arena, &s.plain) {
+            (Some(a), _) => cphase(a.collection_phase()),
+            (_, Some(a)) => cphase(a.collection_phase()),
+            _ => CPhase::Sleeping,
+        };
+        match &s.metrics {
+            Some(m) => Pre { phase, debt: m.allocation_debt(), total: m.total_gc_count(), traced: m.verif_counters().traced_gcs },
+            None => Pre { phase: CPhase::Sleeping, debt: 0.0, total: 0, traced: 0 },
         }
     }
 
@@ -346,6 +400,20 @@ impl World {
             total_after,
             traced_before: pre.traced,
             traced_after: m.verif_counters().traced_gcs,
+            orphan_gray: match snap {
+                None => vec![],
+                Some(sn) => sn
+                    .all
+                    .iter()
+                    .filter(|o| o.color == b'G' && !sn.gray.contains(&o.addr) && !sn.gray_again.contains(&o.addr))
+                    .map(|o| slot.addr2id.get(&o.addr).copied().unwrap_or(u32::MAX))
+                    .collect(),
+            },
+            foreign_callback: self.arenas.iter().enumerate().any(|(i, s)| i != ai && s.shadow.cb.is_some()),
+            counters_after: {
+                let c = m.verif_counters();
+                (c.marked_gcs, c.traced_gcs, c.remembered_gcs, c.dropped_gcs, c.freed_gcs)
+            },
             live_blocks: alloc::live_blocks(ai as u32),
             alloc_violations: alloc::take_violations(),
         };
@@ -394,7 +462,19 @@ impl World {
             return;
         }
         if op == Op::New(0) && ai == self.arenas.len() {
-            return self.rootless(ai, src);
+            if src.begin_rootless(self, ai) {
+                return self.rootless(ai, src);
+            }
+            // an arena with a pointer-free root
+            self.write_op(ai, &op);
+            let arena = PlainArena::new(|_mc| PlainRoot { counter: 0 });
+            let metrics = arena.metrics().clone();
+            metrics.set_pacing(pacing_of(&P0));
+            let snap = arena.verif_snapshot();
+            self.arenas.push(ArenaSlot { colors: HashMap::new(), phase: b'Z', arena: None, plain: Some(arena), metrics: Some(metrics), addr2id: HashMap::new(), shadow: Shadow::new(0) });
+            let ph = cphase_of_snapshot(&snap);
+            self.finish_op(ai, &op, "ok".into(), Pre { phase: CPhase::Sleeping, debt: 0.0, total: 0, traced: 0 }, Some(&snap), ph, String::new());
+            return;
         }
         if let Op::New(n) = op {
             if ai != self.arenas.len() || n != NROOT {
@@ -410,13 +490,18 @@ impl World {
             // The protocol's `new` = `Arena::new` + `set_pacing(P0)` with the dyadic pacing P0, so
             // that every amount the run computes is exact in f64 (DESIGN §4, numerics).
             metrics.set_pacing(pacing_of(&P0));
-            self.arenas.push(ArenaSlot { colors: HashMap::new(), phase: b'Z', arena: Some(arena), metrics: Some(metrics), addr2id: HashMap::new(), shadow: Shadow::new(n) });
+            self.arenas.push(ArenaSlot { colors: HashMap::new(), phase: b'Z', arena: Some(arena), plain: None, metrics: Some(metrics), addr2id: HashMap::new(), shadow: Shadow::new(n) });
             let snap = self.arenas[ai].arena.as_ref().unwrap().verif_snapshot();
             let ph = cphase_of_snapshot(&snap);
             self.finish_op(ai, &op, "ok".into(), Pre { phase: CPhase::Sleeping, debt: 0.0, total: 0, traced: 0 }, Some(&snap), ph, String::new());
             return;
         }
-        if ai >= self.arenas.len() || self.arenas[ai].arena.is_none() {
+        if ai >= self.arenas.len() || (self.arenas[ai].arena.is_none() && self.arenas[ai].plain.is_none()) {
+            self.skip(ai, &op);
+            return;
+        }
+        if self.arenas[ai].plain.is_some() && matches!(op, Op::Enter(k) if k.is_map()) {
+            // (map_root / try_map_root are exercised on the slot-root flavour)
             self.skip(ai, &op);
             return;
         }
@@ -436,8 +521,13 @@ impl World {
             Op::DropArena => {
                 self.write_op(ai, &op);
                 let pre = self.pre(ai);
-                let arena = self.arenas[ai].arena.take().unwrap();
-                let r = catch_unwind(AssertUnwindSafe(move || drop(arena)));
+                let r = match self.arenas[ai].plain.take() {
+                    Some(arena) => catch_unwind(AssertUnwindSafe(move || drop(arena))),
+                    None => {
+                        let arena = self.arenas[ai].arena.take().unwrap();
+                        catch_unwind(AssertUnwindSafe(move || drop(arena)))
+                    }
+                };
                 let ret = if r.is_ok() { "ok" } else { "panic" };
                 self.finish_op(ai, &op, ret.into(), pre, None, CPhase::Sleeping, String::new());
             }
@@ -445,29 +535,25 @@ impl World {
             Op::Enter(Cb::Mutate) => {
                 self.write_op(ai, &op);
                 let pre = self.pre(ai);
-                let arena = self.arenas[ai].arena.take().unwrap();
-                let r = catch_unwind(AssertUnwindSafe(|| {
+                let r = with_arena!(self, ai, arena => catch_unwind(AssertUnwindSafe(|| {
                     arena.mutate(|mc, root| {
-                        let mut cb = CbCtx { mc, fc: None, root: RootRef::Shared(root), temps: vec![], leave_inside: false };
+                        let mut cb = CbCtx { mc, fc: None, root: root.shared(), temps: vec![], leave_inside: false };
                         self.enter_obs(ai, &op, &cb, pre);
                         self.callback_loop(ai, &mut cb, src)
                     })
-                }));
-                self.arenas[ai].arena = Some(arena);
+                })));
                 self.after_callback(ai, r);
             }
             Op::Enter(Cb::MutateRoot) => {
                 self.write_op(ai, &op);
                 let pre = self.pre(ai);
-                let mut arena = self.arenas[ai].arena.take().unwrap();
-                let r = catch_unwind(AssertUnwindSafe(|| {
+                let r = with_arena!(self, ai, arena => catch_unwind(AssertUnwindSafe(|| {
                     arena.mutate_root(|mc, root| {
-                        let mut cb = CbCtx { mc, fc: None, root: RootRef::Mut(root), temps: vec![], leave_inside: false };
+                        let mut cb = CbCtx { mc, fc: None, root: root.exclusive(), temps: vec![], leave_inside: false };
                         self.enter_obs(ai, &op, &cb, pre);
                         self.callback_loop(ai, &mut cb, src)
                     })
-                }));
-                self.arenas[ai].arena = Some(arena);
+                })));
                 self.after_callback(ai, r);
             }
             Op::Enter(kind) if kind.is_map() => {
@@ -515,7 +601,7 @@ impl World {
             let body = |this: &mut World, mc: &Mutation<'_>| {
                 let metrics = mc.metrics().clone();
                 metrics.set_pacing(pacing_of(&P0));
-                this.arenas.push(ArenaSlot { colors: HashMap::new(), phase: b'Z', arena: None, metrics: Some(metrics), addr2id: HashMap::new(), shadow: Shadow::new(n) });
+                this.arenas.push(ArenaSlot { colors: HashMap::new(), phase: b'Z', arena: None, plain: None, metrics: Some(metrics), addr2id: HashMap::new(), shadow: Shadow::new(n) });
                 let snap = mc.verif_snapshot();
                 let ph = cphase_of_snapshot(&snap);
                 this.finish_op(ai, &op_new, "ok".into(), Pre { phase: CPhase::Sleeping, debt: 0.0, total: 0, traced: 0 }, Some(&snap), ph, String::new());
@@ -548,7 +634,7 @@ impl World {
         }));
         if self.arenas.len() == ai {
             // the constructor never ran its body (cannot happen): keep the protocol aligned
-            self.arenas.push(ArenaSlot { colors: HashMap::new(), phase: b'Z', arena: None, metrics: None, addr2id: HashMap::new(), shadow: Shadow::new(n) });
+            self.arenas.push(ArenaSlot { colors: HashMap::new(), phase: b'Z', arena: None, plain: None, metrics: None, addr2id: HashMap::new(), shadow: Shadow::new(n) });
         }
         self.after_owned_callback(ai, r);
     }
@@ -561,13 +647,12 @@ impl World {
     fn rootless(&mut self, ai: usize, src: &mut dyn Source) {
         let op_new = Op::New(0);
         let op_enter = Op::Enter(Cb::Rootless);
-        src.begin_rootless(self, ai);
         self.write_op(ai, &op_new);
         let r = catch_unwind(AssertUnwindSafe(|| {
             gc_arena::arena::rootless_mutate(|mc| {
                 let metrics = mc.metrics().clone();
                 metrics.set_pacing(pacing_of(&P0));
-                self.arenas.push(ArenaSlot { colors: HashMap::new(), phase: b'Z', arena: None, metrics: Some(metrics), addr2id: HashMap::new(), shadow: Shadow::new(0) });
+                self.arenas.push(ArenaSlot { colors: HashMap::new(), phase: b'Z', arena: None, plain: None, metrics: Some(metrics), addr2id: HashMap::new(), shadow: Shadow::new(0) });
                 let snap = mc.verif_snapshot();
                 let ph = cphase_of_snapshot(&snap);
                 self.finish_op(ai, &op_new, "ok".into(), Pre { phase: CPhase::Sleeping, debt: 0.0, total: 0, traced: 0 }, Some(&snap), ph, String::new());
@@ -581,7 +666,7 @@ impl World {
             None::<TestArena>
         }));
         if self.arenas.len() == ai {
-            self.arenas.push(ArenaSlot { colors: HashMap::new(), phase: b'Z', arena: None, metrics: None, addr2id: HashMap::new(), shadow: Shadow::new(0) });
+            self.arenas.push(ArenaSlot { colors: HashMap::new(), phase: b'Z', arena: None, plain: None, metrics: None, addr2id: HashMap::new(), shadow: Shadow::new(0) });
         }
         self.after_owned_callback(ai, r);
     }
@@ -620,8 +705,11 @@ impl World {
     }
 
     fn finish_top(&mut self, ai: usize, op: &Op, ret: String, pre: Pre, steps: String) {
-        let snap = self.arenas[ai].arena.as_ref().unwrap().verif_snapshot();
-        let ph = cphase(self.arenas[ai].arena.as_ref().unwrap().collection_phase());
+        let (snap, ph) = match (&self.arenas[ai].arena, &self.arenas[ai].plain) {
+            (Some(a), _) => (a.verif_snapshot(), cphase(a.collection_phase())),
+            (_, Some(a)) => (a.verif_snapshot(), cphase(a.collection_phase())),
+            _ => unreachable!("finish_top without an arena"),
+        };
         self.finish_op(ai, op, ret, pre, Some(&snap), ph, steps);
     }
 
@@ -657,7 +745,9 @@ impl World {
         // A trace fault is "the k-th trace call panics"; tracing an *empty* `OnceLock` runs no client
         // code, so with such a cell around the index would not mean the same thing on both sides:
         // the call is then made (and written) without the fault.
-        let fault = if self.arenas[ai].shadow.objs.iter().any(|o| o.kind == Kind::OnceCell && o.dropped == 0 && o.freed == 0 && o.slots.first().is_some_and(|s| s.is_none())) {
+        // (The same goes for a `leafcell` that a barrier re-queued: its trace runs no client code.)
+        let gray_cell = self.arenas[ai].colors.iter().any(|(id, c)| c.0 == b'G' && self.arenas[ai].shadow.objs.get(*id as usize).is_some_and(|o| o.kind == Kind::LeafCell));
+        let fault = if gray_cell || self.arenas[ai].shadow.objs.iter().any(|o| o.kind == Kind::OnceCell && o.dropped == 0 && o.freed == 0 && o.slots.first().is_some_and(|s| s.is_none())) {
             None
         } else {
             fault
@@ -665,37 +755,39 @@ impl World {
         let op = Op::Collect { method, cont, fault };
         self.write_op(ai, &op);
         let pre = self.pre(ai);
-        let mut arena = self.arenas[ai].arena.take().unwrap();
         FAULT.with(|f| f.set(fault));
         TRACE_COUNT.with(|c| c.set(0));
         self.arenas[ai].shadow.pending_fault = fault.is_some();
         // Phase 1: the collection method itself (and start_sweeping, if asked for).
-        let r = catch_unwind(AssertUnwindSafe(|| match method {
-            Method::CollectDebt => {
-                arena.collect_debt();
-                "-"
-            }
-            Method::CycleDebt => {
-                arena.cycle_debt();
-                "-"
-            }
-            Method::FinishCycle => {
-                arena.finish_cycle();
-                "-"
-            }
-            Method::MarkDebt | Method::FinishMarking => {
-                let m = if method == Method::MarkDebt { arena.mark_debt() } else { arena.finish_marking() };
-                match m {
-                    None => "none",
-                    Some(m) => {
-                        if cont == Cont::Sweep {
-                            m.start_sweeping();
+        let (r, steps) = with_arena!(self, ai, arena => {
+            let r = catch_unwind(AssertUnwindSafe(|| match method {
+                Method::CollectDebt => {
+                    arena.collect_debt();
+                    "-"
+                }
+                Method::CycleDebt => {
+                    arena.cycle_debt();
+                    "-"
+                }
+                Method::FinishCycle => {
+                    arena.finish_cycle();
+                    "-"
+                }
+                Method::MarkDebt | Method::FinishMarking => {
+                    let m = if method == Method::MarkDebt { arena.mark_debt() } else { arena.finish_marking() };
+                    match m {
+                        None => "none",
+                        Some(m) => {
+                            if cont == Cont::Sweep {
+                                m.start_sweeping();
+                            }
+                            "some"
                         }
-                        "some"
                     }
                 }
-            }
-        }));
+            }));
+            (r, String::from_utf8(arena.verif_take_log()).unwrap_or_default())
+        });
         FAULT.with(|f| f.set(None));
         let ret = match &r {
             Ok(s) => s.to_string(),
@@ -709,8 +801,6 @@ impl World {
                 }
             }
         };
-        let steps = String::from_utf8(arena.verif_take_log()).unwrap_or_default();
-        self.arenas[ai].arena = Some(arena);
         let is_some = ret == "some";
         self.finish_top(ai, &op, ret, pre, steps);
         self.arenas[ai].shadow.pending_fault = false;
@@ -721,20 +811,21 @@ impl World {
                 let op = Op::Enter(Cb::Finalize);
                 self.write_op(ai, &op);
                 let pre = self.pre(ai);
-                let mut arena = self.arenas[ai].arena.take().unwrap();
-                let r = catch_unwind(AssertUnwindSafe(|| {
-                    let m = arena.finish_marking();
-                    match m {
-                        None => Err(()),
-                        Some(m) => Ok(m.finalize(|fc, root| {
-                            let mut cb = CbCtx { mc: fc, fc: Some(fc), root: RootRef::Shared(root), temps: vec![], leave_inside: false };
-                            self.enter_obs(ai, &op, &cb, pre);
-                            self.callback_loop(ai, &mut cb, src)
-                        })),
-                    }
-                }));
-                let _ = arena.verif_take_log();
-                self.arenas[ai].arena = Some(arena);
+                let r = with_arena!(self, ai, arena => {
+                    let r = catch_unwind(AssertUnwindSafe(|| {
+                        let m = arena.finish_marking();
+                        match m {
+                            None => Err(()),
+                            Some(m) => Ok(m.finalize(|fc, root| {
+                                let mut cb = CbCtx { mc: fc, fc: Some(fc), root: root.shared(), temps: vec![], leave_inside: false };
+                                self.enter_obs(ai, &op, &cb, pre);
+                                self.callback_loop(ai, &mut cb, src)
+                            })),
+                        }
+                    }));
+                    let _ = arena.verif_take_log();
+                    r
+                });
                 match r {
                     Ok(Err(())) => {
                         let pre = self.pre(ai);
@@ -948,6 +1039,13 @@ impl World {
                         (Some(p), Some(c)) => Some(Box::new(move || mc.forward_barrier(Some(p), c))),
                         _ => None,
                     },
+                    Barrier::CellSet(p) => match Self::lookup(cb, SP::S(p)) {
+                        Some(P::SK(g)) => Some(Box::new(move || {
+                            let mut b = g.borrow_mut(mc);
+                            b.val = b.val.wrapping_add(1);
+                        })),
+                        _ => None,
+                    },
                     Barrier::Fbw(None, c) => weak(cb, c).map(|c| Box::new(move || mc.forward_barrier_weak(None, c)) as Box<dyn FnOnce()>),
                     Barrier::Fbw(Some(p), c) => match (strong(cb, p), weak(cb, c)) {
                         (Some(p), Some(c)) => Some(Box::new(move || mc.forward_barrier_weak(Some(p), c))),
@@ -989,6 +1087,7 @@ impl World {
             P::SC(_) | P::WC(_) => Kind::LockCell,
             P::SO(_) | P::WO(_) => Kind::OnceCell,
             P::SD(_) | P::WD(_) => Kind::DynNode,
+            P::SK(_) | P::WK(_) => Kind::LeafCell,
         }
     }
 
@@ -1034,6 +1133,11 @@ impl World {
                 let v: OnceCellT<'gc> = OnceLock::new();
                 alloc::expect_gc(t);
                 P::SO(Gc::new(mc, v))
+            }
+            Kind::LeafCell => {
+                let v: LeafCell = RefLock::new(CellBody { id: std::cell::Cell::new(t), val: 0 });
+                alloc::expect_gc(t);
+                P::SK(Gc::new(mc, v))
             }
             Kind::DynNode => {
                 // (the box is allocated before the Gc block is announced to the allocator)
